@@ -4,7 +4,8 @@ Counter-model search for the translated power methods (C12, round 7).
 When a theorem of Props/C12Prog.lean (`C12_gen_power_on_sem` …) does not check after a change of the source, this driver looks
 for a node on which the translated body and the model's function differ: it enumerates small nodes (every power state,
 durations -1/0/2, countdowns 0/1, the reset flag, every interface list of length ≤ 3 over NIC-like / switch-port-like
-interfaces, plugged in or not, enabled or not, a few software states) and prints the first difference per method.
+interfaces, plugged in or not, enabled or not, a few software states) and prints, per method, the differing node closest to a
+fresh node (`weight`).
 It proves nothing (the theorems do); it only turns a broken proof into something a person can read.
 Line protocol: `search` → one line per method: `<method> ok <nodes tried>` or `<method> counter-model <node> | translated: … | model: …`.
 -/
@@ -51,10 +52,22 @@ def showNode (n : Node) : String :=
   s!"st={showSt n.st} up_dur={n.upDur} down_dur={n.downDur} up_cd={n.upCd} down_cd={n.downCd} rs={n.resetting} " ++
   s!"nics={",".intercalate (n.nics.map showNic)} svcs={",".intercalate (n.svcs.map showSvc)} apps={",".intercalate (n.apps.map showApp)} h={">".intercalate (n.hist.reverse.map showSt)}"
 
+/-- how far a node is from the node a fresh episode starts with (ON, no countdown running, no reset pending, durations ≥ 0,
+few interfaces, no software): the search prints the differing node of LEAST weight, so that the counter-model of a broken
+`_sem` theorem is a node a request sequence reaches at once whenever such a one exists (seeded C12-h: ON, shut-down duration 0) -/
+def weight (n : Node) : Nat :=
+  (if n.resetting then 16 else 0) + (if n.upCd != 0 then 8 else 0) + (if n.downCd != 0 then 8 else 0) +
+  (match n.st with | .on => 0 | .off => 2 | _ => 6) +
+  (if n.upDur < 0 then 3 else if n.upDur == 0 then 0 else 1) + (if n.downDur < 0 then 3 else if n.downDur == 0 then 0 else 1) +
+  2 * n.nics.length + (if n.svcs.isEmpty then 0 else 3)
+
 def firstDiff (name : String) (f g : Node → Node × Option Bool) : String :=
-  match smallNodes.find? (fun n => f n != g n) with
+  let bad := smallNodes.filter (fun n => f n != g n)
+  match bad.foldl (fun (b : Option Node) n => match b with
+      | none => some n
+      | some m => if weight n < weight m then some n else some m) none with
   | none => s!"{name} ok {smallNodes.length}"
-  | some n => s!"{name} counter-model {showNode n} | translated: {showNode (f n).1} answer={repr (f n).2} | model: {showNode (g n).1} answer={repr (g n).2}"
+  | some n => s!"{name} counter-model {showNode n} | translated: {showNode (f n).1} answer={repr (f n).2} | model: {showNode (g n).1} answer={repr (g n).2} | differing small nodes: {bad.length} of {smallNodes.length}"
 
 def searchAll : List String :=
   [firstDiff "_start_up_actions" (fun n => (genStart n, none)) (fun n => (startUpActions n, none)),
